@@ -12,8 +12,15 @@ func c07Specs(tier string) []*Spec {
 		specs = append(specs, &Spec{ID: "C07", Name: name, Cfg: cfg, Keys: keys, Vals: bs("x", "y"), MaxDepth: depth, MaxMaint: maint,
 			Alphabet: a.Ops, Oracles: []Oracle{oracleFast(probesFor(keys))}})
 	}
+	// idempotent re-commits of an existing version (see c15.go addResave), 2 keys, with removals
+	addResave := func(name string, cfg Cfg, depth int) {
+		a := Alpha{Writes: true, Save: true, LoadVersion: true, MaxVersions: 3}
+		specs = append(specs, &Spec{Weight: 8, ID: "C07", Name: name, Cfg: cfg, Keys: bs("a"), Vals: bs("x", "y"), MaxDepth: depth, MaxMaint: 1,
+			Alphabet: a.Ops, Oracles: []Oracle{oracleFast(probesFor(bs("a")))}})
+	}
 	k2 := bs("a", "b")
 	if tier == "quick" {
+		addResave("resave/1key/d9", defaultCfg, 9)
 		add("default/d6", defaultCfg, keys, 6, 2, true)
 		add("default/2keys/d7-maint3", defaultCfg, k2, 7, 3, true)
 		add("startoff/2keys/d6", Cfg{Fast: false}, k2, 6, 3, true)
@@ -21,6 +28,7 @@ func c07Specs(tier string) []*Spec {
 		add("flush150/d5", Cfg{Fast: true, Flush: 150}, keys, 5, 2, true)
 		return specs
 	}
+	addResave("resave/1key/d11", defaultCfg, 11)
 	add("default/d7", defaultCfg, keys, 7, 2, true)
 	add("default/2keys/d9-maint3", defaultCfg, k2, 9, 3, true)
 	add("startoff/2keys/d8", Cfg{Fast: false}, k2, 8, 3, true)
